@@ -56,7 +56,7 @@ const (
 type myStmt struct {
 	query   string // translated to the evaluator's dialect
 	nParams int
-	types   []byte // parameter types of the last execution that sent them
+	types   []byte         // parameter types of the last execution that sent them
 	long    map[int][]byte // parameter values received with COM_STMT_SEND_LONG_DATA for the next execution
 }
 
